@@ -155,6 +155,36 @@ func rtExec(c *Ctx, op string) {
 	if s0.Digest(true) != s1.Digest(true) {
 		c.PropFail("pack-mutates-source", "source tree changed by pack: "+DiffFilesets(s0, s1, true), op)
 	}
+	// ---- a slip of the hand: the pack's target is the fileset itself (file://<src>), and a directory inside it; whatever
+	// the pack answers, the fileset stays as it is (an empty one included: a scratch copy that is an empty directory)
+	{
+		empty := filepath.Join(base, "empty-set")
+		os.Mkdir(empty, 0750)
+		os.Chtimes(empty, time.Unix(1e9, 5), time.Unix(1e9, 5))
+		e0, _ := Snapshot(base + "/empty-set")
+		for _, tgt := range []string{src, empty} {
+			which := tgt
+			safeCall(func() (api.WareID, error) {
+				return fn.pack(ctx, api.PackType(fmtName), which, pf, api.WarehouseLocation("file://"+which), rio.Monitor{})
+			})
+		}
+		s2, _ := Snapshot(src)
+		e1, e1err := Snapshot(empty)
+		if s0.Digest(true) != s2.Digest(true) {
+			c.PropFail("pack-mutates-source", "a pack whose target is its own fileset changed the fileset: "+DiffFilesets(s0, s2, true), op)
+		}
+		if e1err != nil || e0.Digest(true) != e1.Digest(true) {
+			c.PropFail("pack-mutates-source", "a pack of an empty directory whose target is that directory replaced / changed it", op)
+		}
+		if ents, _ := os.ReadDir(base); true {
+			for _, d := range ents {
+				if strings.HasPrefix(d.Name(), ".tmp.upload") {
+					c.PropFail("scan-creates-files", "a pack onto its own fileset left a staging file next to it: "+d.Name(), op)
+				}
+			}
+		}
+		os.RemoveAll(empty)
+	}
 	if err != nil && pan == "" {
 		// the fileset was materialised on disk as generated: a pack that refuses it cannot round-trip it
 		c.PropFail("pack-refused", "pack of a well-formed fileset failed: "+err.Error(), op)
